@@ -256,7 +256,7 @@ func search(t *testing.T, h *Harness) {
 				}
 				os.WriteFile(p, []byte(strings.Join(lg, "\n")), 0o644)
 			}
-			continue
+			// (a capped run carries a termination failure and is handled like any other failed run)
 		}
 		for k, v := range res.Probes {
 			out.Probes[k] += v
